@@ -560,6 +560,24 @@ class Unit:
         else:
             if any(n["k"] == "await" for n in nodes) and not sig["async"]:
                 pass
+        # E15b: `tokio::spawn(async move { BODY });` as a statement whose value is unused -- BODY is the
+        # body of the task this function starts; it is verified in place as a block (its concurrency
+        # with the rest of the function is not modelled: the unit states what the block may rely on)
+        if getattr(self, "spawn_inline", False):
+            asyncs = [x for x in nodes if x["k"] == "async"]
+            for n in nodes:
+                if n["k"] == "call" and n["path"].split("::")[-1] == "spawn" and len(n.get("args", [])) == 1:
+                    a0, a1 = n["args"][0]
+                    hit = [x for x in asyncs if x["span"][0] == a0 and x["span"][1] == a1]
+                    if not hit:
+                        continue
+                    st = [x for x in nodes if x["k"] == "stmt" and x["kind"] != "let" and x["span"][0] == n["span"][0]]
+                    if not st or not src.text(*st[0]["span"]).rstrip().endswith(";"):
+                        raise Undecided(f"E15b: the task handle of the spawn in {key} is used; the block cannot be verified in place")
+                    b = src.data.find(b"{", a0, a1)
+                    eds.append((n["span"][0], b, "", None))
+                    eds.append((a1, n["span"][1], "", None))
+                    self._log("E15b", src, a0, "tokio::spawn(async move {..});", "the task's body as a block in place")
         # E3
         for n in nodes:
             if n["k"] == "macro" and n["path"].split("::")[-1] == "select":
@@ -961,7 +979,15 @@ class Unit:
                         if y["k"] == "await" and x["span"][0] <= y["span"][0] < x["span"][1]:
                             raise Undecided(f"E7: guard of {key} is alive across an await in an exit expression")
                     eds.append((x["span"][0], x["span"][0], "{ proof { ghost_unlock(w); } } ", None))
-            if last["kind"] == "expr":
+            unit_tail = last["kind"] == "expr" and (
+                re.match(r"(while|for)\b", src.text(*last["span"]))
+                or any(l["k"] == "loop" and l.get("body_close") == blk["close"] for l in nodes))
+            if unit_tail:
+                # the tail is a unit-valued expression (a while/for loop, or the last expression of a
+                # loop body): the guard is dropped right after it; what happens inside with the guard
+                # alive is decided by the contracts of the calls made there
+                eds.append((last["span"][1], last["span"][1], "; proof { ghost_unlock(w); } ", None))
+            elif last["kind"] == "expr":
                 # tail expression evaluated with the guard alive: it must not contain an await
                 for x in nodes:
                     if x["k"] == "await" and last["span"][0] <= x["span"][0] < last["span"][1]:
@@ -972,6 +998,22 @@ class Unit:
                 pos = blk["close"] - 1
                 eds.append((pos, pos, " proof { ghost_unlock(w); } ", None))
             self._log("E7", src, n["span"][0], "", "ghost_unlock(w) at the end of the guard's block and before early exits")
+        if getattr(self, "e7_temps", False):
+            # a guard that is a temporary (`x.lock().await.send(v).await;`) lives to the end of its statement
+            rx = re.compile(r"\.lock\(\)")
+            for n in nodes:
+                if n["k"] != "stmt":
+                    continue
+                txt = src.text(*n["span"])
+                if not rx.search(txt) or (n["kind"] == "let" and self.LOCK_RX.search(txt)):
+                    continue
+                inner = [x for x in nodes if x["k"] == "stmt" and x is not n and n["span"][0] <= x["span"][0] and x["span"][1] <= n["span"][1] and rx.search(src.text(*x["span"]))]
+                if inner:
+                    continue      # the lock is taken in a nested statement: handled there
+                if not txt.rstrip().endswith(";"):
+                    raise Undecided(f"E7: temporary guard of {key} in a tail expression")
+                eds.append((n["span"][1], n["span"][1], " proof { ghost_unlock(w); } ", None))
+                self._log("E7", src, n["span"][0], "", "ghost_unlock(w) after the statement whose temporary guard it ends")
         return eds
 
     PANIC_MCALLS = {"unwrap", "expect"}
